@@ -319,7 +319,18 @@ func GenMuxOps(r *core.PRNG, n int, period int, rich, invalid, allowDisc, big bo
 				}
 			default: // does not fit
 				ps.HasPayload = true
-				if r.Bool() {
+				if r.Chance(1, 3) {
+					// an adaptation field that by itself exceeds a packet, up to sizes whose 8-bit
+					// length would wrap around
+					ps.AF = genAF(r, 0, true)
+					if r.Bool() {
+						ps.AF.HasPrivate, ps.AF.Private = true, r.Bytes(r.Range(186, 255))
+					} else {
+						ps.AF.Stuffing = r.Range(190, 460)
+					}
+					ps.PayloadLen = r.Range(1, 40)
+					ps.HasPayload = r.Bool()
+				} else if r.Bool() {
 					ps.PayloadLen = 185 + r.Intn(3)
 				} else {
 					ps.AF = genAF(r, 30, true)
